@@ -249,7 +249,7 @@ def evaluate(case):
         path = _workfile(src.encode("utf-8"))
     try:
         o = guarded_parse(src, std=case["std"], ignore_comments=case["ignore_comments"], want_str=True,
-                          budget=WORK_BUDGET, file_path=path)
+                          budget=WORK_BUDGET, file_path=path, hang_limit=case.get("hang_limit", 90))
     finally:
         if path is not None:
             try:
@@ -268,6 +268,9 @@ def evaluate(case):
         return Result(True, None, nontrivial, labels)
     if o.kind == "budget":
         return Result(False, "budget-exceeded", True, labels, {"budget": WORK_BUDGET})
+    if o.kind == "hang":
+        tag = "+placeholder-name" if re.search(r"F2PY_(EXPR_TUPLE|REAL_CONSTANT|STRING_CONSTANT)_\d", src) else ""
+        return Result(False, "hang:%s%s" % (o.where, tag), True, labels, {"error": o.text})
     if o.kind == "exit":
         return Result(False, "SystemExit:%s" % o.where, True, labels, {"error": o.text})
     return Result(False, "%s:%s" % (type(o.exc).__name__, o.where), True, labels, {"error": o.text})
